@@ -1,7 +1,7 @@
 CONSTANTS
-  N = 5
+  N = 6
   Flags = {0, 1, 2}
-  MaxCb = 2
+  MaxCb = 3
   StopAfterClose = TRUE
   ShutRdEof = FALSE
 SPECIFICATION Spec
